@@ -185,9 +185,40 @@ Theorem C04_tie_JBessel_spectral_density : forall ora (d : Z) l nu k,
 Proof. exact JBessel_spectral_density_tie. Qed.
 Print Assumptions C04_tie_JBessel_spectral_density.
 
+Theorem C04_tie_HyperSpherical_spectral_density : forall ora (d : Z) l k,
+  Formulas_gen.HyperSpherical_spectral_density (Rops ora) l (IZR d) k = hyp_density (Rops ora) d l k.
+Proof. exact HyperSpherical_spectral_density_tie. Qed.
+Print Assumptions C04_tie_HyperSpherical_spectral_density.
+Theorem C04_tie_tpl_exp_spec_dens_base : forall ora (d : Z) l h k,
+  Formulas_gen.tpl_exp_spec_dens_base (Rops ora) k (IZR d) l h = tplexp0 (Rops ora) d l h k.
+Proof. exact tpl_exp_spec_dens_base_tie. Qed.
+Print Assumptions C04_tie_tpl_exp_spec_dens_base.
+(* the 12-term series of the source's for loop, unrolled by the translator, is the model's fold *)
+Theorem C04_tie_tpl_gau_spec_dens_base : forall ora (d : Z) l h k,
+  Formulas_gen.tpl_gau_spec_dens_base (Rops ora) k (IZR d) l h = tplgau0 (Rops ora) d l h k.
+Proof. exact tpl_gau_spec_dens_base_tie. Qed.
+Print Assumptions C04_tie_tpl_gau_spec_dens_base.
+Theorem C04_tie_tpl_exp_spec_dens : forall ora (d : Z) l h low k,
+  Formulas_gen.tpl_exp_spec_dens (Rops ora) k (IZR d) l h low = tplexp_density (Rops ora) d l h low k.
+Proof. exact tpl_exp_spec_dens_tie. Qed.
+Print Assumptions C04_tie_tpl_exp_spec_dens.
+Theorem C04_tie_tpl_gau_spec_dens : forall ora (d : Z) l h low k,
+  Formulas_gen.tpl_gau_spec_dens (Rops ora) k (IZR d) l h low = tplgau_density (Rops ora) d l h low k.
+Proof. exact tpl_gau_spec_dens_tie. Qed.
+Print Assumptions C04_tie_tpl_gau_spec_dens.
+(* the classes' argument plumbing (dim, len_rescaled, hurst, len_low_rescaled) *)
+Theorem C04_tie_TPLGaussian_spectral_density : forall ora (d : Z) l h lowr k,
+  Formulas_gen.TPLGaussian_spectral_density (Rops ora) (IZR d) l h lowr k = tplgau_density (Rops ora) d l h lowr k.
+Proof. exact TPLGaussian_spectral_density_tie. Qed.
+Print Assumptions C04_tie_TPLGaussian_spectral_density.
+Theorem C04_tie_TPLExponential_spectral_density : forall ora (d : Z) l h lowr k,
+  Formulas_gen.TPLExponential_spectral_density (Rops ora) (IZR d) l h lowr k = tplexp_density (Rops ora) d l h lowr k.
+Proof. exact TPLExponential_spectral_density_tie. Qed.
+Print Assumptions C04_tie_TPLExponential_spectral_density.
+
 (* class level: [gen_density / gen_cdf / gen_ppf ora m d ls rs] = the translated formula of class m applied to
-   len_rescaled = ls / rs and IZR d ([gen_density] falls back to the hand model for the three untranslated classes,
-   [translated m] = False for them); [gen_pdf] = translated rad_fac * gen_density *)
+   len_rescaled = ls / rs, IZR d and (truncated power laws) len_low / rs — for ALL eight analytic classes;
+   [gen_pdf] = translated rad_fac * gen_density *)
 Theorem C04_tie_classes : forall ora (m : cls) (d : Z) (ls rs x : R),
   gen_density ora m d ls rs x = spectral_density (Rops ora) m d ls rs x /\
   gen_cdf ora m d ls rs x = spectral_rad_cdf (Rops ora) m d ls rs x /\
@@ -197,8 +228,8 @@ Print Assumptions C04_tie_classes.
 
 (* ---------- the theorems above, about what the source says now *)
 Theorem C04_spectrum_scaling_generated : forall ora (m : cls) (d : Z) (ls rs k : R),
-  translated m -> 0 < ls -> 0 < rs -> scal_ok m (ls / rs) k ->
-  gen_density ora m d ls rs k = Rpow (ls / rs) (IZR d) * gen_density ora m d 1 1 ((ls / rs) * k).
+  0 < ls -> 0 < rs -> scal_ok m (ls / rs) k ->
+  gen_density ora m d ls rs k = Rpow (ls / rs) (IZR d) * gen_density ora (ref_cls m ls) d 1 1 ((ls / rs) * k).
 Proof. exact spectrum_scaling_gen. Qed.
 Print Assumptions C04_spectrum_scaling_generated.
 
